@@ -165,6 +165,11 @@ def h_producers(cx):
     r = J.import_json_string(J.create_json_string([a * b + c, [a, a * a]]), verbose=False)
     lib.check_wellformed(cx, r[0], 'json')
     lib.check_wellformed(cx, r[1][1], 'json-list')
+    # chains whose plain string order differs from the ensemble-wise order ('eb|r1' < 'e|r1'), different lengths, inside a list / array / correlator
+    p, q = c11.mk_rich(cx, 'p', 'prefix'), c11.mk_rich(cx, 'q', 'prefix')
+    r = J.import_json_string(J.create_json_string([[p, q, p * q], np.array([q, p], dtype=object), pe.Corr([p, q])]), verbose=False)
+    for k, o in enumerate(list(r[0]) + list(r[1]) + [r[2][0], r[2][1]]):
+        lib.check_wellformed(cx, o if not isinstance(o, np.ndarray) else o[0], 'json-prefix[%d]' % k)
     for o in pe.derived_observable(lambda x, **kw: np.array([x[0] * x[1], x[1] + x[0]], dtype=object) if cx.mode == 'sym' else __import__('autograd.numpy').numpy.array([x[0] * x[1], x[1] + x[0]]), [a, b]):
         lib.check_wellformed(cx, o, 'derived-array')
 
